@@ -15,8 +15,9 @@ def generate(rng, tier):
             a = rand_digits(rng, la, rng.choice(["ones", "rand"])) if la else []
             b = rand_digits(rng, lb, rng.choice(["ones", "rand", "sparse"])) if lb else []
             cases.append("c15.exact_add %s %s" % (D(a), D(b)))
-            if val(a) >= val(b):
-                cases.append("c15.exact_sub %s %s" % (D(a), D(b)))
+            cases.append("c15.exact_sub %s %s" % (D(a), D(b)))       # a < b: must panic, in bounds
+            if la != lb:
+                cases.append("c15.exact_sub %s %s" % (D(b), D(a)))   # subtrahend LONGER than the minuend
     for _ in range(300 if tier == "thorough" else 80):
         a = rand_digits(rng, rng.choice([0, 1, 4, 5, 6, 9, 10, 11, 25, 40]))
         b = rand_digits(rng, rng.choice([0, 1, 4, 5, 6, 9, 10, 11, 25, 40]))
